@@ -37,7 +37,7 @@ def ancestors(nodes, n):
     return out
 
 
-def run_shape(shape, fails, choices, max_concurrent=None, x=1, warm_rerun=False, all_complete=False):
+def run_shape(shape, fails, choices, max_concurrent=None, x=1, warm_rerun=False, all_complete=False, lagging=False):
     E.reset()
     R.clear()
     d = E.scratch()
@@ -56,6 +56,16 @@ def run_shape(shape, fails, choices, max_concurrent=None, x=1, warm_rerun=False,
             except Exception as e:
                 err = e
             ev = list(S.STATE["events"])
+        elif lagging:
+            S.reset(choices)
+            S.STATE["lagging"] = True
+            sub = S.submitter(d, max_concurrent)
+            res = err = None
+            try:
+                res = sub(SHAPES[shape]["make"](x, fails), raise_errors=True)
+            except Exception as e:
+                err = e
+            ev = list(S.STATE["events"])
         else:
             res, err, ev = S.run_async(SHAPES[shape]["make"](x, fails), d, choices, max_concurrent)
     finally:
@@ -66,10 +76,10 @@ def run_shape(shape, fails, choices, max_concurrent=None, x=1, warm_rerun=False,
     return res, err, ev, stats
 
 
-def c14(shape, fail_bits, choices):
+def c14(shape, fail_bits, choices, lagging=False):
     spec = SHAPES[shape]
     fails = {n for k, n in enumerate(FAILABLE[shape]) if (fail_bits >> k) & 1}
-    res, err, ev, stats = run_shape(shape, fails, choices)
+    res, err, ev, stats = run_shape(shape, fails, choices, lagging=lagging)
     T.reach()
     nodes = spec["nodes"]
     tags = {tag_of(b) for b in R.LOG if b[0] in ("Node", "Join")}
